@@ -375,19 +375,9 @@ mod proofs_pi {
             }
         };
     }
-    #[kani::proof]
-    #[kani::stub(robust::orient2d, orient2d_contract)]
-    #[kani::stub(std::collections::BinaryHeap::push, heap_push_recorder)]
-    #[kani::stub(super::super::super::segment_intersection::intersection, intersection_contract)]
-    #[kani::stub(super::super::super::divide_segment::divide_segment, divide_segment_by_contract)]
-    #[kani::unwind(8)]
-    fn possible_intersection_overlap_grid_f64() {
-        possible_intersection_overlap_grid_body::<f64, _>(&mut KaniSrc);
-    }
-
+    // the Overlap answer (kind 2, and the grid variant) is specified in the body above but its harness exhausts CBMC's
+    // memory (> 60 GB); that arm is covered by the native bounded check `overlap_arm_exhaustive` instead
     pi_harness!(possible_intersection_none_f64, f64, 0);
     pi_harness!(possible_intersection_point_f64, f64, 1);
-    pi_harness!(possible_intersection_overlap_f64, f64, 2);
     pi_harness!(possible_intersection_point_f32, f32, 1);
-    pi_harness!(possible_intersection_overlap_f32, f32, 2);
 }
